@@ -82,6 +82,9 @@ func (engine) Generate(r *lib.Rng, tier string, i int) any {
 	if r.Chance(1, 5) {
 		addOutKeys(r, &c.Case)
 	}
+	if r.Chance(1, 3) {
+		widenBranches(r, &c.Case)
+	}
 	if r.Chance(1, 8) {
 		c.RtMax = r.Range(1, 9)
 	}
@@ -97,7 +100,7 @@ func (engine) Generate(r *lib.Rng, tier string, i int) any {
 	if r.Chance(1, 4) {
 		c.ExplicitMode = true
 	}
-	if r.Chance(1, 4) {
+	if r.Chance(1, 3) {
 		c.StreamConds = true
 	}
 	if streamable(&c.Case) {
@@ -206,6 +209,89 @@ func addOutKeys(r *lib.Rng, c *gg.Case) {
 			if n.Key != gg.START && n.OutKey == 0 && r.Chance(1, 3) {
 				n.OutKey = next
 				next++
+			}
+		}
+	}
+}
+
+// widenBranches: multi-way branches that select MANY targets at once. Every multi-branch of an any-predecessor
+// graph or chain gets (if possible) one more end node and a table row that selects all its end nodes: the output
+// is handed to 3-4 nodes by one condition (the shared generator picks 2-3 end nodes and selects each with
+// probability 1/2).
+func widenBranches(r *lib.Rng, c *gg.Case) {
+	for gi := range c.Forest {
+		g := &c.Forest[gi]
+		if g.Front == "chain" {
+			maxKey := uint64(1)
+			for _, st := range g.Stages {
+				for _, sn := range st.Nodes {
+					if sn.Key > maxKey {
+						maxKey = sn.Key
+					}
+				}
+			}
+			for si := range g.Stages {
+				st := &g.Stages[si]
+				if st.Kind != "branch" || st.Single {
+					continue
+				}
+				if len(st.Nodes) < 4 && r.Chance(1, 2) {
+					maxKey++
+					st.Nodes = append(st.Nodes, gg.StageNode{Key: maxKey, Kind: "lambda"})
+				}
+				all := make([]uint64, len(st.Nodes))
+				for i, sn := range st.Nodes {
+					all[i] = sn.Key
+				}
+				if len(st.Table) > 0 && r.Chance(1, 2) {
+					st.Table[r.Intn(len(st.Table))] = all
+				} else {
+					st.Table = append(st.Table, all)
+				}
+			}
+			continue
+		}
+		if g.Front != "graph" || g.Mode != "pregel" {
+			continue
+		}
+		for ni := range g.Nodes {
+			for bi := range g.Nodes[ni].Branches {
+				b := &g.Nodes[ni].Branches[bi]
+				if b.Single {
+					continue
+				}
+				var cands []uint64
+				for _, n := range g.Nodes {
+					k := n.Key
+					if k == gg.START {
+						k = gg.END
+					}
+					in := false
+					for _, e := range b.Ends {
+						if e == k {
+							in = true
+						}
+					}
+					if !in {
+						cands = append(cands, k)
+					}
+				}
+				if len(cands) > 0 && len(b.Ends) < 4 && r.Chance(1, 2) {
+					b.Ends = append(b.Ends, cands[r.Intn(len(cands))])
+					for i := 0; i < len(b.Ends); i++ {
+						for j := i + 1; j < len(b.Ends); j++ {
+							if b.Ends[j] < b.Ends[i] {
+								b.Ends[i], b.Ends[j] = b.Ends[j], b.Ends[i]
+							}
+						}
+					}
+				}
+				all := append([]uint64{}, b.Ends...)
+				if len(b.Table) > 0 && r.Chance(1, 2) {
+					b.Table[r.Intn(len(b.Table))] = all
+				} else {
+					b.Table = append(b.Table, all)
+				}
 			}
 		}
 	}
